@@ -375,4 +375,130 @@ example : (generateJa4 (fun _ => []) { (default : Signature) with extensions := 
 example : (generateJa4 (fun _ => []) { (default : Signature) with extensions := [13], sigAlgs := [0x0403, 0x0804] } false).c
     = "000d_0403,0804".toList := by decide +kernel
 
+/-! ### the full statement fails inside each known-finding class (kernel-checked witnesses, any SHA) -/
+
+private theorem specReport_eq (sha : Bytes → Bytes) (ch : ClientHello) (a : Str) (v : String)
+    (hA : partA ch = some a) (hv : versionField ch = some v) :
+    specReport sha ch = some
+      { ja4 := a ++ ['_'] ++ hashB sha true ch ++ ['_'] ++ hashC sha true ch,
+        ja4r := a ++ ['_'] ++ partB true ch ++ ['_'] ++ partC true ch,
+        ja4o := a ++ ['_'] ++ hashB sha false ch ++ ['_'] ++ hashC sha false ch,
+        ja4ro := a ++ ['_'] ++ partB false ch ++ ['_'] ++ partC false ch,
+        version := v, sni := sniField ch, alpn := alpnField ch, ciphers := cipherList ch,
+        extensions := extList ch, sigAlgs := sigAlgsOf ch.exts, groups := groupsOf ch.exts } := by
+  unfold specReport ja4
+  rw [hA, hv]
+  rfl
+
+private theorem modelReport_wf (sha : Bytes → Bytes) (ch : ClientHello) (hwf : ch.WF knownBodyOk) :
+    modelReport sha knownBodyOk (encode ch) = some (reportOf sha (extractSig knownBodyOk (helloOf ch))) := by
+  unfold modelReport
+  rw [parseClientHello_encode knownBodyOk ch hwf]
+
+private theorem not_full_of_witness {α} (sha : Bytes → Bytes) (ch : ClientHello) (proj : Report → α)
+    (a : Str) (v : String) (hA : partA ch = some a) (hv : versionField ch = some v)
+    (hwf : ch.WF knownBodyOk)
+    (hne : ∀ r, specReport sha ch = some r → proj (reportOf sha (extractSig knownBodyOk (helloOf ch))) ≠ proj r) :
+    ¬ FullConformance sha knownBodyOk := by
+  intro hfull
+  have hs := specReport_eq sha ch a v hA hv
+  have hm := hfull ch _ hwf hs
+  rw [modelReport_wf sha ch hwf] at hm
+  simp only [Option.some.injEq] at hm
+  exact hne _ hs (congrArg proj hm)
+
+private def wBase (legacy : Nat) (ciphers : List Nat) (exts : List Ext) : ClientHello :=
+  { recordVersion := 0x0301, legacyVersion := legacy, random := List.replicate 32 0, sessionId := [],
+    ciphers := ciphers, compression := [0], extensions := some exts }
+
+/-- supported_versions = [TLS 1.2]: the code reports 1.3, JA4.md 1.2 -/
+def w1 : ClientHello := wBase 0x0303 [0x1301] [Ext.supportedVersions [0x0303], Ext.signatureAlgorithms [0x0403]]
+/-- legacy version 0x0305, no supported_versions: the code reports 1.2, JA4.md `00` -/
+def w2 : ClientHello := wBase 0x0305 [0x1301] [Ext.signatureAlgorithms [0x0403]]
+/-- no cipher suites: the code hashes the empty string, JA4.md prints zeros -/
+def w3 : ClientHello := wBase 0x0303 [] [Ext.other 23 []]
+/-- extension type 0x1a2a (GREASE-like, not GREASE): dropped by the code -/
+def w4 : ClientHello := wBase 0x0303 [0x1301] [Ext.other 0x1a2a [1, 2], Ext.other 23 []]
+/-- first ALPN value `68 ff 32`: dropped by the code, `h2` by JA4.md -/
+def w5 : ClientHello := wBase 0x0303 [0x1301] [Ext.alpn [[0x68, 0xff, 0x32]], Ext.other 23 []]
+
+theorem kf_supportedVersionsNot13_witness (sha : Bytes → Bytes) :
+    w1.WF knownBodyOk ∧ KF.C04.supportedVersionsNot13 w1 ∧ ¬ FullConformance sha knownBodyOk := by
+  refine ⟨by decide, by decide, not_full_of_witness sha w1 (·.version) "t12i010200".toList "V1_2"
+    (by decide) (by decide) (by decide) ?_⟩
+  intro r hr
+  rw [specReport_eq sha w1 _ _ (by decide : partA w1 = some "t12i010200".toList) (by decide : versionField w1 = some "V1_2")] at hr
+  simp only [Option.some.injEq] at hr
+  subst hr
+  show (extractSig knownBodyOk (helloOf w1)).version.name ≠ "V1_2"
+  decide
+
+theorem kf_unknownLegacyVersion_witness (sha : Bytes → Bytes) :
+    w2.WF knownBodyOk ∧ KF.C04.unknownLegacyVersion w2 ∧ ¬ FullConformance sha knownBodyOk := by
+  refine ⟨by decide, by decide, not_full_of_witness sha w2 (·.version) "t00i010100".toList "Unknown"
+    (by decide) (by decide) (by decide) ?_⟩
+  intro r hr
+  rw [specReport_eq sha w2 _ _ (by decide : partA w2 = some "t00i010100".toList) (by decide : versionField w2 = some "Unknown")] at hr
+  simp only [Option.some.injEq] at hr
+  subst hr
+  show (extractSig knownBodyOk (helloOf w2)).version.name ≠ "Unknown"
+  decide
+
+theorem kf_greaseLikeExtension_witness (sha : Bytes → Bytes) :
+    w4.WF knownBodyOk ∧ KF.C04.greaseLikeExtension w4 ∧ ¬ FullConformance sha knownBodyOk := by
+  refine ⟨by decide, by decide, not_full_of_witness sha w4 (·.extensions) "t12i010200".toList "V1_2"
+    (by decide) (by decide) (by decide) ?_⟩
+  intro r hr
+  rw [specReport_eq sha w4 _ _ (by decide : partA w4 = some "t12i010200".toList) (by decide : versionField w4 = some "V1_2")] at hr
+  simp only [Option.some.injEq] at hr
+  subst hr
+  show (extractSig knownBodyOk (helloOf w4)).extensions ≠ extList w4
+  decide
+
+theorem kf_alpnNotUtf8_witness (sha : Bytes → Bytes) :
+    w5.WF knownBodyOk ∧ KF.C04.alpnNotUtf8 w5 ∧ ¬ FullConformance sha knownBodyOk := by
+  refine ⟨by decide, by decide, not_full_of_witness sha w5 (·.alpn) "t12i0102h2".toList "V1_2"
+    (by decide) (by decide) (by decide) ?_⟩
+  intro r hr
+  rw [specReport_eq sha w5 _ _ (by decide : partA w5 = some "t12i0102h2".toList) (by decide : versionField w5 = some "V1_2")] at hr
+  simp only [Option.some.injEq] at hr
+  subst hr
+  show (extractSig knownBodyOk (helloOf w5)).alpn ≠ alpnField w5
+  decide
+
+/-- For the empty-list class the disagreement is in the hashed part, so it depends on the digest: it
+holds for every `sha` whose digest of the empty string does not start with six zero bytes (SHA-256:
+`e3b0c44298fc…`). -/
+theorem kf_emptyListHash_witness (sha : Bytes → Bytes) (hlen : (hash12 sha []).length = 12)
+    (hne : hash12 sha [] ≠ zeros12) :
+    w3.WF knownBodyOk ∧ KF.C04.emptyListHash w3 ∧ ¬ FullConformance sha knownBodyOk := by
+  refine ⟨by decide, by decide, not_full_of_witness sha w3 (·.ja4) "t12i000100".toList "V1_2"
+    (by decide) (by decide) (by decide) ?_⟩
+  intro r hr
+  rw [specReport_eq sha w3 _ _ (by decide : partA w3 = some "t12i000100".toList) (by decide : versionField w3 = some "V1_2")] at hr
+  simp only [Option.some.injEq] at hr
+  subst hr
+  have hB : hashB sha true w3 = zeros12 := by
+    unfold hashB
+    have : (ciphersFor true w3).isEmpty = true := by decide
+    simp only [this, if_true]
+  have ha : (generateJa4 sha (extractSig knownBodyOk (helloOf w3)) false).a = "t12i000100".toList := by
+    show (generateJa4 (fun _ => []) (extractSig knownBodyOk (helloOf w3)) false).a = _
+    decide
+  have hb : (generateJa4 sha (extractSig knownBodyOk (helloOf w3)) false).b = [] := by
+    show (generateJa4 (fun _ => []) (extractSig knownBodyOk (helloOf w3)) false).b = _
+    decide +kernel
+  show (generateJa4 sha (extractSig knownBodyOk (helloOf w3)) false).full ≠ _
+  have hfull : (generateJa4 sha (extractSig knownBodyOk (helloOf w3)) false).full =
+      (generateJa4 sha (extractSig knownBodyOk (helloOf w3)) false).a ++ ['_']
+        ++ hash12 sha (generateJa4 sha (extractSig knownBodyOk (helloOf w3)) false).b ++ ['_']
+        ++ hash12 sha (generateJa4 sha (extractSig knownBodyOk (helloOf w3)) false).c := rfl
+  rw [hfull, ha, hb, hB]
+  intro e
+  simp only [List.append_assoc] at e
+  have e2 := List.append_cancel_left e
+  have e3 := List.append_cancel_left e2
+  have e4 := (List.append_inj e3 (by rw [hlen]; rfl)).1
+  exact hne e4
+
 end Huginn.Props.C04
